@@ -128,12 +128,80 @@ def describe_foreign_diff(a, b):
     return "foreign data differs"
 
 
+def ape_tag(total, rng):
+    """an APEv2 tag with header whose total length (header + items + footer) is exactly `total` bytes (>= 64 + 11)"""
+    import struct
+    room = total - 64
+    key = b"Verif"
+    vlen = room - 8 - len(key) - 1
+    if vlen < 0:
+        return None
+    value = bytes(rng.choice(b"abcdefghij klmnopq") for _ in range(vlen))
+    item = struct.pack("<2L", vlen, 0) + key + b"\x00" + value
+    size = len(item) + 32
+    head = b"APETAGEX" + struct.pack("<4L", 2000, size, 1, 0xA0000000) + b"\x00" * 8
+    foot = b"APETAGEX" + struct.pack("<4L", 2000, size, 1, 0x80000000) + b"\x00" * 8
+    return head + item + foot
+
+
+def lyrics3(n):
+    body = b"LYRICSBEGIN" + b"IND00002" + b"10" + b"LYR" + (b"%05d" % n) + b"x" * n
+    return body + (b"%06d" % len(body)) + b"LYRICS200"
+
+
+def id3v1_block():
+    return b"TAG" + b"old title".ljust(30, b"\x00") + b"artist".ljust(30, b"\x00") + b"album".ljust(30, b"\x00") + b"2001" + \
+        b"comment".ljust(30, b"\x00") + b"\x0c"
+
+
+def synth_samples(ctx, fmt):
+    """synthesised layouts (the quantifier's 'synthesised layouts'): foreign tags of boundary sizes behind the audio of
+    ID3-framed files, MP4 atom layouts from the C10 builder"""
+    rng = ctx.rng
+    out = []
+    if fmt.kind in ("MP3", "TrueAudio"):
+        base = F.sample_bytes(ctx.repo, fmt.samples[0])
+        w = walkers.walk(fmt.kind, base)
+        audio = dict(w.foreign).get("payload", b"")
+        # APEv2 tags whose length is around the 128 bytes of an ID3v1 block (find_id3v1 looks 128+3 bytes back)
+        sizes = list(range(120, 140)) if not ctx.quick else sorted(set(rng.sample(range(124, 135), 4) + [128, 131]))
+        sizes += [rng.randrange(76, 400) for _ in range(ctx.budget(1, 6))]
+        for n in sizes:
+            t = ape_tag(n, rng)
+            if t is None:
+                continue
+            out.append(("synth:audio+apev2[%d]" % n, audio + t))
+            if rng.random() < 0.5:
+                out.append(("synth:id3v2+audio+apev2[%d]+id3v1" % n, base[:len(base) - len(audio)] if False else
+                            (b"ID3\x04\x00\x00\x00\x00\x00\x0b" + b"TIT2\x00\x00\x00\x02\x00\x00\x00a" + audio + t + id3v1_block())))
+        out.append(("synth:audio+lyrics3+id3v1", audio + lyrics3(40) + id3v1_block()))
+        out.append(("synth:audio+apev2+lyrics3+id3v1", audio + ape_tag(200, rng) + lyrics3(17) + id3v1_block()))
+        out.append(("synth:audio+id3v1", audio + id3v1_block()))
+    if fmt.kind == "MP4":
+        try:
+            from props import c10
+            lays = [c10.Layout(split=True), c10.Layout(moov_first=False, traks=["co64", "stco"], free=("before-ilst", "top-mid")),
+                    c10.Layout(moov_first=True, udta="none", meta=False, ilst="none"), c10.Layout(nmoof=1, free=("after-ilst",))]
+            for i, lay in enumerate(lays):
+                out.append(("synth:mp4-layout-%d" % i, c10.build(lay)[0]))
+        except Exception as e:      # the C10 builder is not ours: its absence must not break C02
+            ctx.notes.append("MP4 synthesised layouts unavailable: %s" % type(e).__name__)
+    return out
+
+
 def samples_for(ctx, fmt):
     out = []
     for s in (fmt.samples if not ctx.quick else fmt.samples[:4]):
         data = F.sample_bytes(ctx.repo, s)
         w = walkers.walk(fmt.kind, data)
         out.append((s, data, w))
+    for name, data in synth_samples(ctx, fmt):
+        w = walkers.walk(fmt.kind, data)
+        if w.errors:
+            ctx.hist["synth-not-wellformed:" + fmt.kind] += 1
+            continue
+        ctx.hist["synth:" + fmt.kind] += 1
+        out.append((name, data, w))
     return out
 
 
@@ -265,19 +333,29 @@ def run_histories(ctx, checks, rule):
                             if rec.rule[0] == "keep" and offered >= 0 and len(after) != len(before):
                                 ctx.violation("%s:keep-not-inplace" % fmt.kind, "returning the offered padding resized the file", case)
                     if "resave" in checks and op[0] == "save":
-                        snap1 = F.snapshot(fmt, sess.obj)
-                        k3, r3 = timed(lambda: sess.apply(("save", ("none",), False)), 20)
+                        # the property: load the file, save it unmodified (X1), save a second time (X2): X2 == X1 and no tag
+                        # is lost.  (Loading may legitimately merge an ID3v1 block into the tag, so X1 is taken after a reload.)
+                        def first():
+                            sess.reload()
+                            snap = F.snapshot(fmt, sess.obj)
+                            sess.apply(("save", ("none",), False))
+                            return snap
+                        k3, snap1 = timed(first, 20)
                         b1 = sess.data
+                        k4, r4 = timed(lambda: sess.apply(("save", ("none",), False)), 20)
+                        b2 = sess.data
                         def again():
                             sess.reload()
+                            snap = F.snapshot(fmt, sess.obj)
                             sess.apply(("save", ("none",), False))
-                        k4, r4 = timed(again, 20)
-                        b2 = sess.data
-                        if k3 == "ok" and k4 == "ok":
-                            if b2 != b1:
+                            return snap
+                        k5, snap3 = timed(again, 20)
+                        b3 = sess.data
+                        if k3 == "ok" and k4 == "ok" and k5 == "ok":
+                            if b2 != b1 or b3 != b1:
                                 ctx.violation("%s:resave-not-idempotent" % fmt.kind,
-                                              "saving unchanged tags twice gives different bytes (%d vs %d bytes)" % (len(b1), len(b2)), case)
-                            if F.snapshot(fmt, sess.obj) != snap1:
+                                              "saving unchanged tags again gives different bytes (%d, %d, %d bytes)" % (len(b1), len(b2), len(b3)), case)
+                            if snap3 != snap1:
                                 ctx.violation("%s:resave-loses-tags" % fmt.kind, "tags differ after an unchanged save", case)
                             w = walkers.walk(fmt.kind, sess.data)
                     if "delete" in checks and op[0] == "delete":
